@@ -67,14 +67,14 @@ def make_cases(ctx):
             "nst_to_server", "hb_declared_longer", "hb_short_padding",
             "finished_post_handshake", "cr_to_server",
             "pha_bad_finished", "pha_bad_signature", "pha_no_verify",
-            "pha_replay_answer"]
+            "pha_replay_answer", "hb_not_negotiated"]
     for k in negs:
         for r in range(ctx.pick(2, 10)):
             yield "neg-%s-%d" % (k, r), dict(neg=k, r=r)
 
 
 def establish(rng, ver, with_tickets, ckey, hb=True, suite=None,
-              client_cb=True):
+              client_cb=True, server_hb=None):
     # sending heartbeat requests needs a response callback in the settings;
     # an endpoint without one still has to answer the peer's requests
     ckw = dict(use_heartbeat_extension=hb,
@@ -88,6 +88,10 @@ def establish(rng, ver, with_tickets, ckey, hb=True, suite=None,
     if suite:
         ckw["cipherNames"] = [suite[1]]
         skw["cipherNames"] = [suite[1]]
+    if server_hb is not None:
+        skw["use_heartbeat_extension"] = server_hb
+        if not server_hb:
+            skw["heartbeat_response_callback"] = None
     cs = ver_settings(ver, **ckw)
     ss = ver_settings(ver, **skw)
     fl = Flavor("cert", skey=rng.choice(["rsa", "ecdsa256"]), ckey=ckey,
@@ -475,10 +479,11 @@ def run_negative(ctx, cid, P):
         ver = (3, 3)
     if k in ("hb_not_allowed",):
         pass
-    if k in ("hb_declared_longer", "hb_short_padding"):
+    if k in ("hb_declared_longer", "hb_short_padding", "hb_not_negotiated"):
         ver = rng.choice([(3, 2), (3, 3), (3, 4)])
     p, tc, ts = establish(rng, ver, False, "rsa" if k in (
-        "cert_unknown_context",) else None, hb)
+        "cert_unknown_context",) else None, hb,
+        server_hb=False if k == "hb_not_negotiated" else None)
     if tc.status != "done" or ts.status != "done":
         ctx.inconc("control failed in %s" % cid)
         return
@@ -495,6 +500,10 @@ def run_negative(ctx, cid, P):
         # the victim did not allow the peer to send: flip its flag the way a
         # PEER_NOT_ALLOWED_TO_SEND negotiation would
         victim.heartbeat_can_receive = False
+        msg = adv.Raw(24, b"\x01\x00\x04abcd" + b"\x00" * 16)
+    elif k == "hb_not_negotiated":
+        # the server's settings switch the extension off; the client offered
+        # it; nothing was negotiated, so a request is not a permitted message
         msg = adv.Raw(24, b"\x01\x00\x04abcd" + b"\x00" * 16)
     elif k == "ku_unknown_type":
         msg = adv.Raw(22, wire.hs_msg(24, b"\x07"))
